@@ -161,6 +161,11 @@ TecmpPayloadPtr TECMP::Decoder::GetCanPayload(const uint8_t* payloadData, const 
 
 TecmpPayloadPtr TECMP::Decoder::GetLinPayload(const uint8_t* payloadData, const std::size_t size)
 {
+    // Pid and length must be present and the announced data bytes must fit
+    constexpr std::size_t linHeaderSize = 2 * sizeof(uint8_t);
+    if (size < linHeaderSize || size - linHeaderSize < payloadData[linHeaderSize - 1])
+        return {};
+
     LinPayload payload(payloadData, size);
     if (payload.isValid())
         return std::make_shared<Payload>(payload);
